@@ -223,6 +223,14 @@ class Ref:
             if op == "cancel":
                 self.cancel(st[1])
                 continue
+            if op == "addhook":
+                tgt = ps["owner"] if st[1] is None else self.handles.get(st[1])
+                if tgt is not None:
+                    # takes effect if that event has not finished yet (pending, or its process still in flight);
+                    # a hook attached to a finished, cancelled or discarded event never fires
+                    tgt["hooks"].append(list(st[2]))
+                    self.features.add("hook-added-late")
+                continue
             if op == "call":
                 ps["frames"].append([st[1], 0, tag])
                 continue
